@@ -20,13 +20,15 @@ type idMaterial struct {
 	emission render3d.Color
 }
 
-func (m *idMaterial) BSDF(normal, source, dest model3d.Coord3D) render3d.Color { return render3d.Color{} }
+func (m *idMaterial) BSDF(normal, source, dest model3d.Coord3D) render3d.Color {
+	return render3d.Color{}
+}
 func (m *idMaterial) SampleSource(gen *rand.Rand, normal, dest model3d.Coord3D) model3d.Coord3D {
 	return model3d.NewCoord3DRandUnit()
 }
 func (m *idMaterial) SourceDensity(normal, source, dest model3d.Coord3D) float64 { return 1 }
-func (m *idMaterial) Emission() render3d.Color                                  { return m.emission }
-func (m *idMaterial) Ambient() render3d.Color                                   { return render3d.Color{} }
+func (m *idMaterial) Emission() render3d.Color                                   { return m.emission }
+func (m *idMaterial) Ambient() render3d.Color                                    { return render3d.Color{} }
 
 type affine struct {
 	mode int // 0 never, 1 always, 2 iff value >= 0
